@@ -76,6 +76,9 @@ def build_inputs(tier):
         for s in INVALID_SNIPPETS[:25]:
             files.append(("odd-separator", f"import os  # {sep} c\n{sep}\n" + s))
         files.append(("odd-separator-valid", f"x = 1  # {sep}\n{sep}\ny = 2\n"))
+    # a file that begins with the UTF-8 byte order mark: both entry points must see (or both must not see) U+FEFF
+    for s in ["x = 1\n", "x = 1 +\n", "import os\ny = (a 1)\n", "s = 'é'\n"] + list(INVALID_SNIPPETS[:10]):
+        files.append(("bom", "\ufeff" + s))
     files += [("multiline-string", "s = '''a\nb\nc''' 3\n"), ("multiline-string", "x = ('''é\nb''' +\n 1) 2\n"), ("endmarker-error", "@dec\n"), ("endmarker-error", "if x:\n"), ("blank-in-brackets", "x = (1 +\n\n\n 2) 3\n")]
     seen = set()
     def encodable(t):
